@@ -27,7 +27,7 @@ class Inst:
                  tier='quick', pre='', loop_contracts=None, nondet_volatile=False, solvers=('minisat',),
                  timeout=120, unwind=None, extra_cbmc=(), also_enforce=(), note='', kind='proof',
                  replay=None, expect_compile_error=False, opts=None, defines=(), root_pick=None,
-                 canary=True, object_bits=None, globals_init=None, extra_replace=(), pre_defines='', ret='void'):
+                 canary=True, object_bits=None, globals_init=None, extra_replace=(), pre_defines='', ret='void', may_not_compile=False):
         self.name = name
         self.params = params          # C++ parameter list of the snippet
         self.expr = expr              # C++ statement(s) using the operation under contract
@@ -54,6 +54,7 @@ class Inst:
         self.canary = canary
         self.object_bits = object_bits
         self.globals_init = globals_init
+        self.may_not_compile = may_not_compile   # the property quantifies over programs that compile; a rejected snippet is then no instance
         self.ret = ret                            # return type of the snippet function (lemma clients return a value)
         self.pre_defines = pre_defines            # C text emitted before the spec headers are included
         self.extra_replace = list(extra_replace)   # contract stubs declared in `pre` (libc models), replaced at call sites
@@ -241,12 +242,42 @@ class Unit:
     def extract(self):
         os.makedirs(self.dir, exist_ok=True)
         drv = os.path.join(self.dir, 'driver.cpp')
-        open(drv, 'w').write(self.driver_text())
         js = os.path.join(self.dir, 'ast.json')
-        dump_ast(drv, js, [REPO_INC, os.path.join(VERIF, 'backend'), os.path.join(VERIF, 'include')])
+        incs = [REPO_INC, os.path.join(VERIF, 'backend'), os.path.join(VERIF, 'include')]
+        self.not_compiling = {}
+        self._may_not_compile = {it.name for it in self.insts if it.may_not_compile}
+        for attempt in range(4):
+            text = self.driver_text()
+            open(drv, 'w').write(text)
+            try:
+                dump_ast(drv, js, incs)
+                break
+            except ExtractError as e:
+                # snippets that the real compiler rejects are not instances ("every combination that compiles");
+                # each snippet sits on its own driver line, so the diagnostics name them
+                lines = text.splitlines()
+                bad = set()
+                for m in re.finditer(r'driver\.cpp:(\d+):\d+: (?:error|note: in instantiation|note: while)', str(e)):
+                    ln = int(m.group(1))
+                    mm = re.match(r'^\S.*? (\w+)\(', lines[ln - 1]) if 0 < ln <= len(lines) else None
+                    for it in self.insts:
+                        if mm and it.name == mm.group(1):
+                            bad.add(it.name)
+                if not bad or attempt == 3:
+                    raise
+                first_err = re.search(r'error: (.*)', str(e))
+                for nm in bad:
+                    self.not_compiling[nm] = first_err.group(1)[:200] if first_err else 'rejected by clang'
+                self.insts = [it for it in self.insts if it.name not in bad]
         self.tu = TU(js)
         os.remove(js)
         inst_fns = self.tu.inst_functions()
+        self.not_instances = {}
+        for nm, why in self.not_compiling.items():
+            if nm in self._may_not_compile:
+                self.not_instances[nm] = why
+            else:
+                self.errors[nm] = 'snippet does not compile: ' + why
         facts = {}
         for it in self.insts:
             try:
@@ -423,10 +454,12 @@ class Unit:
             r2 = cbmc.verify(info['cfile'], cdir, 'harness', [info['root']] + list(it.also_enforce),
                              replace=info['leaves'] + list(it.extra_replace), loop_contracts=bool(it.loop_contracts), nondet_volatile=it.nondet_volatile,
                              includes=[os.path.join(VERIF, 'include'), self.dir], defines=['CANARY'], solvers=it.solvers,
-                             timeout=it.timeout, unwind=it.unwind, extra_cbmc=it.extra_cbmc, trace=False,
-                             object_bits=it.object_bits)
-            failed = [d for (st, d, _) in r2.obligations.values() if st != 'SUCCESS']
-            canary_ok = r2.status == 'failed' and len(failed) >= 1 and all('canary' in d for d in failed)
+                             timeout=it.timeout, unwind=it.unwind, extra_cbmc=list(it.extra_cbmc) + ['--stop-on-fail'], trace=False,
+                             object_bits=it.object_bits, stop_on_fail=True)
+            # --stop-on-fail: the first (and, since the main run discharged everything else, only) failing property
+            # must be the planted assertion
+            canary_ok = r2.status == 'failed' and 'canary: harness end reachable' in r2.log and r2.log.count('Violated property') == 1
+            failed = [r2.reason[:200]]
             if not canary_ok:
                 res.status = 'undecided'
                 res.reason = ('vacuity guard: planted false assertion did not fail alone (harness end unreachable or '
